@@ -106,6 +106,8 @@ def pred_1d(case):
     if space["periodic"]:
         c_again = np.concatenate([c_again, c_again[:p]])
     held = []        # (what, returned array, copy made at once): a later call must not change an earlier result
+    # strided output views only with the interpreted kernels (compiled extensions may legitimately insist on contiguous data)
+    strided_ok = str(getattr(NU, "__file__", "")).endswith(".py") and str(getattr(CU, "__file__", "")).endswith(".py")
     for tag, c in (("", c_first), (":reused", c_again), (":reused", c_first)):
         spl.coeffs[:] = c
         for der in (0, 1):
@@ -116,6 +118,16 @@ def pred_1d(case):
                 got_vec = np.full(len(pts), np.nan)
                 spl.eval_vector(pts.copy(), got_vec, der)
                 got_sc = np.array([spl.eval(float(x), der) for x in pts])
+                if strided_ok:
+                    # in-place evaluation into a view that is not contiguous (every other element of a larger buffer)
+                    big = np.full(2 * len(pts), np.nan)
+                    spl.eval_vector(pts.copy(), big[::2], der)
+                    got_str = big[::2].copy()
+                    if not np.isnan(big[1::2]).all():
+                        raise Violation("C07:%s:eval-vector:strided-overrun" % path, "eval_vector wrote outside the output view")
+            if strided_ok and not np.array_equal(got_str, got_vec, equal_nan=True):
+                raise Violation("C07:%s:eval-vector:strided%s" % (path, tag), "eval_vector into a strided output view differs from "
+                                "eval_vector into a contiguous array (der=%d): %r vs %r" % (der, got_str[:3], got_vec[:3]))
             held.append(("Spline1D.eval(array, der=%d)" % der, got_arr, np.array(got_arr, copy=True)))
             if p == 1 and der == 1:
                 left = ref.left_derivative(c, pts)
